@@ -11,7 +11,12 @@
 //	lease_mutex_ok       input (observed call results)  expected 1   (spec oracle)
 //	lease_gen_strict_ok  input (observed call results)  expected 1   (spec oracle)
 //
-// Timestamps never leave the harness: a lease is reported as live / expired only.
+// Clock: the whole run executes inside a testing/synctest bubble, so time.Now()
+// (the only clock the Leaser reads) is a fake clock that stands still while code
+// runs and advances exactly by the scheduler's "tick" steps. The remaining
+// validity of a lease at the moment of any request is therefore exact, down to
+// 1 ns, and runs are deterministic. Times are reported in ns since the start of
+// the schedule.
 package main
 
 import (
@@ -28,6 +33,8 @@ import (
 	"path/filepath"
 	"sort"
 	"strings"
+	"testing"
+	"testing/synctest"
 	"time"
 
 	"github.com/aws/aws-sdk-go-v2/service/s3"
@@ -119,14 +126,22 @@ func (m *memStore) del(in *s3.DeleteObjectInput) (*s3.DeleteObjectOutput, error)
 
 type clientSpec struct {
 	owner int   // 1.. ; owner string = "A","B",...
-	live  bool  // TTL = +1h (true) or -1h (false: the lease is born expired)
+	ttl   int64 // Leaser.TTL in ns (any sign; negative: the lease is born expired)
 	prog  []int // 0 acquire, 1 renew, 2 release
+}
+
+// step of a schedule: execute the parked request of a client, or advance the clock
+type step struct {
+	tick   bool
+	client int
+	d      int64 // ns
 }
 
 type event struct {
 	client, op int
 	res        Sx
 	ok         bool
+	at         int64 // ns since the start of the schedule
 }
 
 type runClient struct {
@@ -142,6 +157,7 @@ type world struct {
 	store  *memStore
 	cls    []*runClient
 	events []event
+	t0     time.Time
 }
 
 // gate is the stub each Leaser talks to: it parks the calling client, then runs the request.
@@ -180,13 +196,16 @@ func ownerID(s string) int64 {
 	return 99
 }
 
-func liveBit(t time.Time) Sx { return B(time.Until(t) > 0) }
+func (w *world) rel(t time.Time) Sx { return I(int64(t.Sub(w.t0))) }
 
-func errSx(err error) Sx {
+func (w *world) errSx(err error) Sx {
 	var le *litestream.LeaseExistsError
 	switch {
 	case errors.As(err, &le):
-		return L(I(1), I(ownerID(le.Owner)), liveBit(le.ExpiresAt))
+		if le.Owner == "" && le.ExpiresAt.IsZero() {
+			return L(I(1), I(0), I(0))
+		}
+		return L(I(1), I(ownerID(le.Owner)), w.rel(le.ExpiresAt))
 	case errors.Is(err, lss3.ErrLeaseRequired):
 		return L(I(2))
 	case errors.Is(err, lss3.ErrLeaseETagRequired):
@@ -199,12 +218,12 @@ func errSx(err error) Sx {
 	return L(I(6))
 }
 
-func leaseSx(l *litestream.Lease) Sx {
-	return L(I(0), I(l.Generation), I(ownerID(l.Owner)), liveBit(l.ExpiresAt))
+func (w *world) leaseSx(l *litestream.Lease) Sx {
+	return L(I(0), I(l.Generation), I(ownerID(l.Owner)), w.rel(l.ExpiresAt))
 }
 
 // one call of the real leaser; panics of the code under test become result (7)
-func doCall(l *lss3.Leaser, op int, held **litestream.Lease) (res Sx, ok bool) {
+func (w *world) doCall(l *lss3.Leaser, op int, held **litestream.Lease) (res Sx, ok bool) {
 	defer func() {
 		if r := recover(); r != nil {
 			res, ok = L(I(7)), false
@@ -215,26 +234,26 @@ func doCall(l *lss3.Leaser, op int, held **litestream.Lease) (res Sx, ok bool) {
 	case 0:
 		nl, err := l.AcquireLease(ctx)
 		if err != nil {
-			return errSx(err), false
+			return w.errSx(err), false
 		}
 		if nl == nil {
 			return L(I(8)), false
 		}
 		*held = nl
-		return leaseSx(nl), true
+		return w.leaseSx(nl), true
 	case 1:
 		nl, err := l.RenewLease(ctx, *held)
 		if err != nil {
-			return errSx(err), false
+			return w.errSx(err), false
 		}
 		if nl == nil {
 			return L(I(8)), false
 		}
 		*held = nl
-		return leaseSx(nl), true
+		return w.leaseSx(nl), true
 	default:
 		if err := l.ReleaseLease(ctx, *held); err != nil {
-			return errSx(err), false
+			return w.errSx(err), false
 		}
 		*held = nil
 		return L(I(0)), true
@@ -247,33 +266,30 @@ func (w *world) clientMain(c *runClient) {
 	l.SetClient(&gate{w, c})
 	l.Owner = ownerName(c.spec.owner)
 	l.Bucket = "b"
-	if c.spec.live {
-		l.TTL = time.Hour
-	} else {
-		l.TTL = -time.Hour
-	}
+	l.TTL = time.Duration(c.spec.ttl)
 	var held *litestream.Lease
 	for _, op := range c.spec.prog {
-		res, ok := doCall(l, op, &held)
+		res, ok := w.doCall(l, op, &held)
 		// only one client runs at a time, so this append is ordered by completion
-		w.events = append(w.events, event{c.idx, op, res, ok})
+		w.events = append(w.events, event{c.idx, op, res, ok, int64(time.Since(w.t0))})
 	}
 	c.status <- false
 }
 
 type runResult struct {
-	taken    []int   // the complete schedule that was executed
-	alts     [][]int // alts[j]: clients parked at position j other than the one taken
+	taken    []step  // the complete schedule that was executed
+	parked   [][]int // parked[j]: clients parked at position j (nil inside the given prefix)
 	events   []event
 	final    Sx
 	requests []int
 }
 
 // runSchedule executes the clients under the given schedule prefix; once the
-// prefix is used up the lowest-index parked client runs. A choice naming a
-// client that is not parked is skipped (and not recorded in taken).
-func runSchedule(specs []clientSpec, prefix []int) runResult {
-	w := &world{store: &memStore{objs: map[string][]byte{}}}
+// prefix is used up the lowest-index parked client runs (no further ticks). A
+// choice naming a client that is not parked is skipped (and not recorded in
+// taken); so is a tick with d < 0. Must be called inside the synctest bubble.
+func runSchedule(specs []clientSpec, prefix []step) runResult {
+	w := &world{store: &memStore{objs: map[string][]byte{}}, t0: time.Now()}
 	for i, sp := range specs {
 		w.cls = append(w.cls, &runClient{idx: i, spec: sp, status: make(chan bool), resume: make(chan struct{})})
 	}
@@ -283,37 +299,43 @@ func runSchedule(specs []clientSpec, prefix []int) runResult {
 		c.parked = <-c.status
 	}
 	var rr runResult
-	step := func(i int) {
+	run := func(i int) {
 		c := w.cls[i]
 		c.resume <- struct{}{}
 		c.parked = <-c.status
 	}
-	for _, i := range prefix {
-		if i < 0 || i >= len(w.cls) || !w.cls[i].parked {
+	for _, st := range prefix {
+		if st.tick {
+			if st.d < 0 {
+				continue
+			}
+			rr.taken = append(rr.taken, st)
+			rr.parked = append(rr.parked, nil)
+			if st.d > 0 {
+				time.Sleep(time.Duration(st.d)) // every client is blocked on a channel: the fake clock jumps
+			}
 			continue
 		}
-		rr.taken = append(rr.taken, i)
-		rr.alts = append(rr.alts, nil) // alternatives inside the prefix belong to other executions
-		step(i)
+		if st.client < 0 || st.client >= len(w.cls) || !w.cls[st.client].parked {
+			continue
+		}
+		rr.taken = append(rr.taken, st)
+		rr.parked = append(rr.parked, nil) // alternatives inside the prefix belong to other executions
+		run(st.client)
 	}
 	for {
-		first := -1
-		var others []int
+		var pk []int
 		for i, c := range w.cls {
 			if c.parked {
-				if first < 0 {
-					first = i
-				} else {
-					others = append(others, i)
-				}
+				pk = append(pk, i)
 			}
 		}
-		if first < 0 {
+		if len(pk) == 0 {
 			break
 		}
-		rr.taken = append(rr.taken, first)
-		rr.alts = append(rr.alts, others)
-		step(first)
+		rr.taken = append(rr.taken, step{client: pk[0]})
+		rr.parked = append(rr.parked, pk)
+		run(pk[0])
 	}
 	rr.events = w.events
 	rr.final = L()
@@ -322,7 +344,7 @@ func runSchedule(specs []clientSpec, prefix []int) runResult {
 		if err := json.Unmarshal(b, &l); err != nil {
 			rr.final = L(I(-1))
 		} else {
-			rr.final = L(I(l.Generation), I(ownerID(l.Owner)), liveBit(l.ExpiresAt))
+			rr.final = L(I(l.Generation), I(ownerID(l.Owner)), w.rel(l.ExpiresAt))
 		}
 	}
 	if _, ok := w.store.objs["b/lock.json"]; len(w.store.objs) > 1 || (len(w.store.objs) == 1 && !ok) {
@@ -343,15 +365,19 @@ func specsSx(specs []clientSpec) Sx {
 		for _, o := range sp.prog {
 			p = append(p, I(int64(o)))
 		}
-		out = append(out, L(I(int64(sp.owner)), B(sp.live), p))
+		out = append(out, L(I(int64(sp.owner)), I(sp.ttl), p))
 	}
 	return out
 }
 
-func intsSx(xs []int) Sx {
+func stepsSx(xs []step) Sx {
 	out := SxList{}
 	for _, x := range xs {
-		out = append(out, I(int64(x)))
+		if x.tick {
+			out = append(out, L(I(x.d)))
+		} else {
+			out = append(out, I(int64(x.client)))
+		}
 	}
 	return out
 }
@@ -359,7 +385,7 @@ func intsSx(xs []int) Sx {
 func eventsSx(evs []event) Sx {
 	out := SxList{}
 	for _, e := range evs {
-		out = append(out, L(I(int64(e.client)), I(int64(e.op)), e.res))
+		out = append(out, L(I(int64(e.client)), I(int64(e.op)), e.res, I(e.at)))
 	}
 	return out
 }
@@ -367,30 +393,44 @@ func eventsSx(evs []event) Sx {
 type counters struct {
 	schedules, configs int
 	maxRequests        int
+	ticked             int
 }
 
-func emit(cw *CaseWriter, specs []clientSpec, rr runResult, class string) {
+func emit(cw *CaseWriter, specs []clientSpec, sched []step, rr runResult, class string, cnt *counters) {
 	evs := eventsSx(rr.events)
-	active, okCalls := 0, 0
+	active, okCalls, tot := 0, 0, 0
 	for _, n := range rr.requests {
 		if n > 0 {
 			active++
 		}
+		tot += n
 	}
 	for _, e := range rr.events {
 		if e.ok {
 			okCalls++
 		}
 	}
+	cnt.schedules++
+	if tot > cnt.maxRequests {
+		cnt.maxRequests = tot
+	}
+	for _, s := range sched {
+		if s.tick {
+			cnt.ticked++
+			break
+		}
+	}
 	nontriv := active >= 2 && okCalls >= 1
-	cw.Add("lease_run", L(specsSx(specs), intsSx(rr.taken)), L(evs, rr.final), class, nontriv)
+	cw.Add("lease_run", L(specsSx(specs), stepsSx(sched)), L(evs, rr.final), class, nontriv)
 	cw.Add("lease_mutex_ok", L(evs), I(1), class+"/oracle", false)
 	cw.Add("lease_gen_strict_ok", L(evs), I(1), class+"/oracle", false)
 }
 
-// explore enumerates every complete schedule of the clients exactly once.
-func explore(cw *CaseWriter, specs []clientSpec, class string, cnt *counters, budget int) {
-	stack := [][]int{{}}
+// explore enumerates every complete schedule of the clients exactly once:
+// every interleaving of their requests and, if maxTicks > 0, every placement of
+// up to maxTicks clock ticks (durations from ticks) between two requests.
+func explore(cw *CaseWriter, specs []clientSpec, class string, cnt *counters, budget int, ticks []int64, maxTicks int) {
+	stack := [][]step{{}}
 	for len(stack) > 0 {
 		if budget > 0 && cnt.schedules >= budget {
 			return
@@ -398,19 +438,26 @@ func explore(cw *CaseWriter, specs []clientSpec, class string, cnt *counters, bu
 		prefix := stack[len(stack)-1]
 		stack = stack[:len(stack)-1]
 		rr := runSchedule(specs, prefix)
-		cnt.schedules++
-		tot := 0
-		for _, n := range rr.requests {
-			tot += n
+		emit(cw, specs, rr.taken, rr, class, cnt)
+		nt := 0
+		for _, s := range prefix {
+			if s.tick {
+				nt++
+			}
 		}
-		if tot > cnt.maxRequests {
-			cnt.maxRequests = tot
-		}
-		emit(cw, specs, rr, class)
 		for j := len(prefix); j < len(rr.taken); j++ {
-			for _, a := range rr.alts[j] {
-				np := append(append([]int(nil), rr.taken[:j]...), a)
-				stack = append(stack, np)
+			for _, a := range rr.parked[j] {
+				if a != rr.taken[j].client {
+					np := append(append([]step(nil), rr.taken[:j]...), step{client: a})
+					stack = append(stack, np)
+				}
+			}
+			// a tick before request j (not before the first request, not right after another tick)
+			if nt < maxTicks && j > 0 && !rr.taken[j-1].tick {
+				for _, d := range ticks {
+					np := append(append([]step(nil), rr.taken[:j]...), step{tick: true, d: d})
+					stack = append(stack, np)
+				}
 			}
 		}
 	}
@@ -436,24 +483,33 @@ func programs(maxLen int) [][]int {
 
 type cfg struct {
 	prog []int
-	live bool
+	ttl  int64
+}
+
+func ttlName(t int64) string {
+	switch {
+	case t == int64(time.Hour):
+		return "+"
+	case t == -int64(time.Hour):
+		return "-"
+	}
+	return time.Duration(t).String()
 }
 
 func cfgKey(c cfg) string {
-	s := "-"
-	if c.live {
-		s = "+"
-	}
+	s := ttlName(c.ttl) + ":"
 	for _, o := range c.prog {
 		s += string(rune('0' + o))
 	}
 	return s
 }
 
-func allCfgs(maxLen int) []cfg {
+func allCfgs(maxLen int, ttls []int64) []cfg {
 	var out []cfg
 	for _, p := range programs(maxLen) {
-		out = append(out, cfg{p, false}, cfg{p, true})
+		for _, t := range ttls {
+			out = append(out, cfg{p, t})
+		}
 	}
 	sort.Slice(out, func(i, j int) bool { return cfgKey(out[i]) < cfgKey(out[j]) })
 	return out
@@ -469,27 +525,26 @@ func maxLenOf(cs []cfg) int {
 	return m
 }
 
-func classOf(cs []cfg) string {
+func classOf(scope string, cs []cfg) string {
 	s := ""
-	for _, c := range cs {
-		if c.live {
-			s += "+"
-		} else {
-			s += "-"
+	for i, c := range cs {
+		if i > 0 && len(ttlName(c.ttl)) > 1 {
+			s += ","
 		}
+		s += ttlName(c.ttl)
 	}
-	return fmt.Sprintf("%dclients/len%d/ttl%s", len(cs), maxLenOf(cs), s)
+	return fmt.Sprintf("%s/%dclients/len%d/ttl%s", scope, len(cs), maxLenOf(cs), s)
 }
 
 func toSpecs(cs []cfg) []clientSpec {
 	var out []clientSpec
 	for i, c := range cs {
-		out = append(out, clientSpec{owner: i + 1, live: c.live, prog: c.prog})
+		out = append(out, clientSpec{owner: i + 1, ttl: c.ttl, prog: c.prog})
 	}
 	return out
 }
 
-// useful: a program that can never issue a request (starts with renew/release and never acquires) adds nothing
+// a program that never acquires can never issue a request
 func hasAcquire(c cfg) bool {
 	for _, o := range c.prog {
 		if o == 0 {
@@ -499,23 +554,43 @@ func hasAcquire(c cfg) bool {
 	return false
 }
 
+const (
+	ns  = int64(time.Nanosecond)
+	ms  = int64(time.Millisecond)
+	sec = int64(time.Second)
+	hr  = int64(time.Hour)
+)
+
+// boundaryTicks: elapsed times after which a lease written with TTL 10 s has,
+// in this order, 10s-1ns, 2s+1ns, 2s, 1s, 1ms, 1ns, 0 ns left, or expired 1 ns ago.
+var boundaryTicks = []int64{1 * ns, 8*sec - 1*ns, 8 * sec, 9 * sec, 10*sec - 1*ms, 10*sec - 1*ns, 10 * sec, 10*sec + 1*ns}
+
 func main() {
 	args := os.Args[1:]
 	if len(args) > 0 && args[0] == "lease" {
 		args = args[1:]
 	}
-	if err := cmdLease(args); err != nil {
-		fmt.Fprintln(os.Stderr, "harness error:", err)
-		os.Exit(3)
-	}
+	// The work runs as the body of a synthetic test so that testing/synctest can
+	// give it a fake clock; testing.Main parses os.Args itself, so hide ours.
+	os.Args = os.Args[:1]
+	var runErr error
+	testing.Main(func(pat, str string) (bool, error) { return true, nil },
+		[]testing.InternalTest{{Name: "lease", F: func(t *testing.T) {
+			synctest.Test(t, func(t *testing.T) { runErr = cmdLease(args) })
+			if runErr != nil {
+				fmt.Fprintln(os.Stderr, "harness error:", runErr)
+				t.Fatal(runErr)
+			}
+		}}}, nil, nil)
 }
 
 func cmdLease(args []string) error {
 	fl := flag.NewFlagSet("lease", flag.ContinueOnError)
 	out := fl.String("out", "", "work directory")
-	n := fl.Int("n", 0, "cap on the number of sampled (non-exhaustive) schedules of the larger scopes")
-	seed := fl.Int64("seed", 1, "PRNG seed (sampling of the larger scopes)")
+	n := fl.Int("n", 0, "budget (schedules) of each sampled scope; 0 = default of the tier")
+	seed := fl.Int64("seed", 1, "PRNG seed (sampled scopes)")
 	tier := fl.String("tier", "quick", "quick | thorough")
+	deep := fl.Bool("deep", false, "boundary scope with two ticks also in the quick tier (used when the takeover guard in the source changed)")
 	replay := fl.String("replay", "", "case file whose lease_run inputs are re-run on the implementation")
 	countOnly := fl.Bool("count", false, "also print the scope sizes")
 	part := fl.Int("part", 0, "process only the client configurations with index %% parts == part")
@@ -532,6 +607,7 @@ func cmdLease(args []string) error {
 	if *parts < 1 || *part < 0 || *part >= *parts {
 		return fmt.Errorf("bad -part/-parts")
 	}
+	thorough := *tier == "thorough"
 	cfgIdx := 0
 	mine := func() bool { cfgIdx++; return (cfgIdx-1)%*parts == *part }
 	cw, err := NewCaseWriter(filepath.Join(*out, "cases.txt"))
@@ -541,41 +617,43 @@ func cmdLease(args []string) error {
 	r := NewRand(*seed)
 	cnt := &counters{}
 	extra := map[string]any{}
+	scope := func(name string, before, cfgs int, exhaustive bool) {
+		extra["scope_"+name+"_schedules"] = cnt.schedules - before
+		extra["scope_"+name+"_configs"] = cfgs
+		extra["scope_"+name+"_exhaustive"] = exhaustive
+	}
 
-	// scope 1 (exhaustive): 2 clients, every pair of (program of length 1..L, TTL sign),
-	// up to exchanging the two clients; every interleaving of their requests.
+	// scope 1 (exhaustive): 2 clients, every pair of (program of length 1..L, TTL +1h / -1h),
+	// up to exchanging the two clients; every interleaving of their requests; no tick.
 	L2 := 3
-	if *tier == "thorough" {
+	if thorough {
 		L2 = 4
 	}
-	cs := allCfgs(L2)
-	before := cnt.schedules
+	cs := allCfgs(L2, []int64{-hr, hr})
+	before, ncfg := cnt.schedules, 0
 	for i := 0; i < len(cs); i++ {
 		for j := i; j < len(cs); j++ {
 			pair := []cfg{cs[i], cs[j]}
 			if !mine() {
 				continue
 			}
-			cnt.configs++
-			explore(cw, toSpecs(pair), classOf(pair), cnt, 0)
+			ncfg++
+			explore(cw, toSpecs(pair), classOf("s1", pair), cnt, 0, nil, 0)
 		}
 	}
 	extra["scope_2clients_maxlen"] = L2
-	extra["scope_2clients_configs"] = cnt.configs
-	extra["scope_2clients_schedules"] = cnt.schedules - before
-	extra["scope_2clients_exhaustive"] = true
+	scope("2clients", before, ncfg, true)
 
-	// scope 2: 3 clients. thorough: exhaustive for programs of length <= 2 that contain an
-	// acquire; quick: a seeded sample of such triples, each explored exhaustively.
+	// scope 2: 3 clients, programs of length <= 2 that contain an acquire, TTL +1h / -1h, no tick.
+	// thorough: every triple exhaustively; quick: seeded sample of triples, each explored depth-first.
 	cs3 := []cfg{}
-	for _, c := range allCfgs(2) {
+	for _, c := range allCfgs(2, []int64{-hr, hr}) {
 		if hasAcquire(c) {
 			cs3 = append(cs3, c)
 		}
 	}
-	before = cnt.schedules
-	cfg3 := 0
-	if *tier == "thorough" {
+	before, ncfg = cnt.schedules, 0
+	if thorough {
 		for i := 0; i < len(cs3); i++ {
 			for j := i; j < len(cs3); j++ {
 				for k := j; k < len(cs3); k++ {
@@ -583,35 +661,119 @@ func cmdLease(args []string) error {
 					if !mine() {
 						continue
 					}
-					cfg3++
-					explore(cw, toSpecs(tr), classOf(tr), cnt, 0)
+					ncfg++
+					explore(cw, toSpecs(tr), classOf("s2", tr), cnt, 0, nil, 0)
 				}
 			}
 		}
-		extra["scope_3clients_exhaustive"] = true
-	} else {
-		budget := *n
-		if budget <= 0 {
-			budget = 20000
+	} else if *part == 0 {
+		budget := 10000
+		if *n > 0 {
+			budget = *n
 		}
 		start := cnt.schedules
-		perTriple := 500 // a triple is explored depth-first up to this many schedules, so that many triples are seen
+		perTriple := 500
 		for cnt.schedules-start < budget {
 			tr := []cfg{cs3[r.Intn(len(cs3))], cs3[r.Intn(len(cs3))], cs3[r.Intn(len(cs3))]}
-			cfg3++
+			ncfg++
 			lim := cnt.schedules + perTriple
 			if lim > start+budget {
 				lim = start + budget
 			}
-			explore(cw, toSpecs(tr), classOf(tr), cnt, lim)
+			explore(cw, toSpecs(tr), classOf("s2", tr), cnt, lim, nil, 0)
 		}
-		extra["scope_3clients_exhaustive"] = false
 	}
-	extra["scope_3clients_configs"] = cfg3
-	extra["scope_3clients_schedules"] = cnt.schedules - before
+	scope("3clients", before, ncfg, thorough)
+
+	// scope 3 (exhaustive, the boundary scope): 2 clients, both TTL 10 s, programs of length 1..2
+	// (thorough: also length 3 with one tick), every interleaving, and every placement of up to
+	// K clock ticks between two requests with the boundary durations: each acquire / renew /
+	// release request is thereby issued with 10s, 10s-1ns, 2s+1ns, 2s, 1s, 1ms, 1ns, 0 ns of
+	// validity left on the current lease, and 1 ns after its expiry.
+	K := 1
+	if thorough || *deep {
+		K = 2
+	}
+	before, ncfg = cnt.schedules, 0
+	cb := allCfgs(2, []int64{10 * sec})
+	for i := 0; i < len(cb); i++ {
+		for j := i; j < len(cb); j++ {
+			pair := []cfg{cb[i], cb[j]}
+			if !hasAcquire(cb[i]) && !hasAcquire(cb[j]) {
+				continue
+			}
+			if !mine() {
+				continue
+			}
+			ncfg++
+			explore(cw, toSpecs(pair), classOf("s3", pair), cnt, 0, boundaryTicks, K)
+		}
+	}
+	if thorough {
+		cb3 := allCfgs(3, []int64{10 * sec})
+		for i := 0; i < len(cb3); i++ {
+			for j := i; j < len(cb3); j++ {
+				if len(cb3[i].prog) < 3 && len(cb3[j].prog) < 3 {
+					continue
+				}
+				if !hasAcquire(cb3[i]) || !hasAcquire(cb3[j]) {
+					continue
+				}
+				pair := []cfg{cb3[i], cb3[j]}
+				if !mine() {
+					continue
+				}
+				ncfg++
+				explore(cw, toSpecs(pair), classOf("s3", pair), cnt, 0, boundaryTicks, 1)
+			}
+		}
+	}
+	extra["scope_boundary_max_ticks"] = K
+	extra["scope_boundary_tick_durations_ns"] = boundaryTicks
+	scope("boundary", before, ncfg, true)
+
+	// scope 4 (sampled): 2..3 clients, TTLs from a mixed set, programs of length 1..3, a random
+	// schedule with up to 4 ticks; one execution per sample.
+	before = cnt.schedules
+	budget4 := 10000
+	if thorough {
+		budget4 = 300000 / *parts
+	}
+	if *n > 0 {
+		budget4 = *n
+	}
+	ttls := []int64{10 * sec, 10 * sec, 3 * sec, 2 * sec, 1 * sec, 1 * ns, 0, -1 * ns, -hr, hr}
+	tickSet := append(append([]int64(nil), boundaryTicks...), 1*ms, 1*sec, 2*sec, 2*sec+1*ns, 3*sec, 3*sec-1*ns, 7*sec, 0)
+	progs := programs(3)
+	for k := 0; k < budget4; k++ {
+		nc := 2 + r.Intn(2)
+		var cfgs []cfg
+		for i := 0; i < nc; i++ {
+			cfgs = append(cfgs, cfg{progs[r.Intn(len(progs))], ttls[r.Intn(len(ttls))]})
+		}
+		var sched []step
+		nticks := r.Intn(5)
+		ln := 4 + r.Intn(16)
+		for i := 0; i < ln; i++ {
+			if nticks > 0 && r.Intn(4) == 0 {
+				sched = append(sched, step{tick: true, d: tickSet[r.Intn(len(tickSet))]})
+				nticks--
+			} else {
+				sched = append(sched, step{client: r.Intn(nc)})
+			}
+		}
+		specs := toSpecs(cfgs)
+		rr := runSchedule(specs, sched)
+		// the input is the schedule as generated (the model skips and completes it the same way)
+		emit(cw, specs, sched, rr, fmt.Sprintf("s4/%dclients/random", nc), cnt)
+	}
+	scope("random", before, budget4, false)
+
 	extra["schedules"] = cnt.schedules
-	extra["part"] = fmt.Sprintf("%d/%d", *part, *parts)
+	extra["schedules_with_ticks"] = cnt.ticked
 	extra["max_requests_in_a_schedule"] = cnt.maxRequests
+	extra["part"] = fmt.Sprintf("%d/%d", *part, *parts)
+	extra["clock"] = "testing/synctest fake clock (exact, advanced only by the schedule's ticks)"
 
 	if err := cw.Close(); err != nil {
 		return err
@@ -641,23 +803,26 @@ func replayLease(path, out string) error {
 		}
 		var specs []clientSpec
 		for _, x := range c.In.At(0).List {
-			sp := clientSpec{owner: int(x.At(0).Int()), live: x.At(1).Int() != 0}
+			sp := clientSpec{owner: int(x.At(0).Int()), ttl: x.At(1).Int()}
 			for _, o := range x.At(2).List {
 				sp.prog = append(sp.prog, int(o.Int()))
 			}
 			specs = append(specs, sp)
 		}
-		var sched []int
+		var sched []step
 		for _, x := range c.In.At(1).List {
-			sched = append(sched, int(x.Int()))
+			if x.IsL {
+				sched = append(sched, step{tick: true, d: x.At(0).Int()})
+			} else {
+				sched = append(sched, step{client: int(x.Int())})
+			}
 		}
 		rr := runSchedule(specs, sched)
-		// keep the input schedule as given (the model skips and completes it the same way)
 		evs := eventsSx(rr.events)
-		cw.Add("lease_run", L(specsSx(specs), intsSx(sched)), L(evs, rr.final), "replay", true)
+		cw.Add("lease_run", L(specsSx(specs), stepsSx(sched)), L(evs, rr.final), "replay", true)
 		cw.Add("lease_mutex_ok", L(evs), I(1), "replay", true)
 		cw.Add("lease_gen_strict_ok", L(evs), I(1), "replay", true)
-		fmt.Printf("replayed %s schedule %v: events %s final %s\n", strings.TrimSpace(SxString(specsSx(specs))), sched, SxString(evs), SxString(rr.final))
+		fmt.Printf("replayed %s schedule %s: events %s final %s\n", strings.TrimSpace(SxString(specsSx(specs))), SxString(stepsSx(sched)), SxString(evs), SxString(rr.final))
 	}
 	return cw.Close()
 }
